@@ -18,7 +18,7 @@ from ..core import Stats, exc_site, exc_text
 from ..harness import Compiled, cs_compile, np_step
 from ..netgen import MODEL_PARAMS, all_specs, harness_specs
 from ..parallel import run_shards, shards_of
-from ..spec import NetSpec
+from ..spec import NetSpec, build
 from .. import valgen
 
 INF = float("inf")
@@ -113,6 +113,20 @@ def check_spec(spec: NetSpec, label, st: Stats, plan):
             for sig, msg in balances(spec, val, nxt, P["T"]):
                 problems.append((sig, f"numpy: {msg}", case))
             st.inc("balances_checked", 1 + spec.n)
+        if full:
+            # read-mutate-read construction (every lookup read after every construction call)
+            for vlabel, val in valgen.vectors(spec, 0):
+                st.inc("executions")
+                case = {"spec": spec.describe(), "config": label, "P": P, "val": {f"{k[0]}.{k[1]}": v for k, v in val.items()},
+                        "engine": "numpy", "touch": True}
+                try:
+                    nxt, built, raw = np_step(spec, val, P, built=build(spec, touch=True))
+                except Exception as e:  # noqa: BLE001
+                    problems.append((f"C02/exception/{exc_site(e)}/{type(e).__name__}", f"numpy: {exc_text(e)}", case))
+                    break
+                for sig, msg in balances(spec, val, nxt, P["T"]):
+                    problems.append((sig, f"numpy (lookups read during construction): {msg}", case))
+                st.inc("balances_checked", 1 + spec.n)
         for sym in plan["cs_sym"]:
             st.inc("transitions", 2)
             try:
@@ -193,7 +207,7 @@ def replay(case):
     P = case["P"]
     val = {tuple(k.split(".")): [float(x) for x in v] for k, v in case["val"].items()}
     if case.get("engine", "numpy") == "numpy":
-        nxt, built, raw = np_step(spec, val, P)
+        nxt, built, raw = np_step(spec, val, P, built=build(spec, touch=bool(case.get("touch"))))
     else:
         F, built, eng = cs_compile(spec, case["engine"], P, compact=0, more_out=True)
         nxt = Compiled(F, built).eval_many([val])[0]
